@@ -109,14 +109,28 @@ func (c *conn) Close() error {
 		return errClosed
 	}
 	vsync.Close(c.closedCh)
+	if c.faults && vsync.Choose(2) == 1 {
+		// the connection is closed all the same, but Close reports an error (e.g. TLS close_notify not written)
+		return errors.New("injected close error")
+	}
 	return nil
 }
 
 func (c *conn) LocalAddr() net.Addr                { return addr("local") }
 func (c *conn) RemoteAddr() net.Addr               { return addr(c.name) }
 func (c *conn) SetDeadline(t time.Time) error      { return nil }
-func (c *conn) SetReadDeadline(t time.Time) error  { return nil }
-func (c *conn) SetWriteDeadline(t time.Time) error { return nil }
+func (c *conn) SetReadDeadline(t time.Time) error {
+	if c.faults && c.closed == 0 && vsync.Choose(2) == 1 {
+		return errors.New("injected set-read-deadline error")
+	}
+	return nil
+}
+func (c *conn) SetWriteDeadline(t time.Time) error {
+	if c.faults && c.closed == 0 && vsync.Choose(2) == 1 {
+		return errors.New("injected set-write-deadline error")
+	}
+	return nil
+}
 
 // ---- handler ----
 
